@@ -18,7 +18,7 @@ N = {"quick": 6000, "thorough": 400000}
 TIME = {"quick": 40, "thorough": 420}
 RULE = ("Rebalancing.make_trades on generated (holdings, targets, quotes, threshold) with targets crafted per contract from "
         "{random, zero, absent, imbalance weight exactly at / 1e-9 below / 1e-9 above the threshold, sub-lot imbalance in (-1,1)}, "
-        "weight and contract-count measures, fractional and whole-lot modes, cash listed or not, thresholds {0,0.01,0.05,0.2}. "
+        "tiny (notional below a fixed commission); weight and contract-count measures, fractional and whole-lot modes, cash listed or not, thresholds {0,0.01,0.05,0.2}, fixed/proportional fees. "
         "An independent computation of target, imbalance and imbalance weight gives the expected trade set; every trade must be "
         "non-cash, non-zero, unique per contract and quoted at the book; fractional qty == imbalance, whole-lot qty == "
         "trunc(imbalance). Non-trivial = threshold > 0 with a crafted at/below/above target, or whole-lot mode with a sub-lot "
@@ -26,7 +26,7 @@ RULE = ("Rebalancing.make_trades on generated (holdings, targets, quotes, thresh
 ASSUMPTIONS = ["ties within 1e-12 relative of the threshold / 1e-9 of an integer lot accept both outcomes",
                "whole-lot mode: the threshold is compared with the weight of the imbalance itself (untruncated), as the property words it"]
 REQUIRED = ["C12:exact-threshold", "C12:trade-set", "C12:trade-wellformed", "C12:fractional-quantity", "C12:whole-lot-truncation", "C12:no-exception"]
-REQUIRED_CATS = ["mode:exact-at", "mode:exact-notch-below", "mode:exact-notch-above", "mode:at", "mode:below", "mode:above", "mode:sublot", "mode:absent-held", "whole-lot", "fractional"]
+REQUIRED_CATS = ["mode:tiny", "mode:exact-at", "mode:exact-notch-below", "mode:exact-notch-above", "mode:at", "mode:below", "mode:above", "mode:sublot", "mode:absent-held", "whole-lot", "fractional"]
 REQUIRED_HITS = ["Rebalancing.make_trades"]
 TECHNIQUE = "runtime monitoring: reference model of the stated filtering rule compared with Rebalancing.make_trades on boundary-biased inputs"
 LEVEL_TEXT = ("Exploration with boundary-biased generation: the real make_trades is compared with an independent evaluation of the "
@@ -84,7 +84,7 @@ def case(ctx, i, tier):
     pool = [ETF("A"), ETF("B"), ES(2019, 6), ETF("C"), ZN(2019, 9), gen.SpotMult("L10", 10.0)]
     rng.shuffle(pool)
     cs = pool[: rng.randint(1, 4)]
-    fees = BrokerFees()
+    fees = BrokerFees(fixed=rng.choice([0, 0, 5.0]), proportional=rng.choice([0, 1e-3]))
     t = datetime(2019, 1, 1)
     ex = gen.new_exchange(t, fees)
     q = {}
@@ -93,7 +93,7 @@ def case(ctx, i, tier):
         sp = rng.choice([0, 0, 1e-3])
         q[c] = (mid * (1 - sp / 2), mid * (1 + sp / 2))
         ex.process_EventNBBO(EventNBBO(t, c, *q[c]))
-    b = Broker(ex, deposit=rng.choice([1e4, 1e6, 1e8]))
+    b = Broker(ex, deposit=rng.choice([1e4, 1e6, 1e8]), fees=fees)
     frac = rng.random() < 0.5
     measure = rng.choice(["weight", "weight", "nr-contracts"])
     for c in cs:
@@ -102,7 +102,7 @@ def case(ctx, i, tier):
             dq = rng.choice([-1, 1]) * rng.uniform(0.05, 0.5) * unit
             if not frac:
                 dq = float(int(dq)) or 1.0
-            b.transact(Trade(t, c, dq, *q[c]))
+            b.transact(Trade(t, c, dq, *q[c], fees))
     thr = rng.choice([0, 0, 0.01, 0.05, 0.2])
     nlv = b.net_liquidation_value()
     hold = b.holdings_quantity
@@ -118,7 +118,7 @@ def case(ctx, i, tier):
             ctx.cat("cash-listed")
             continue
         h = hold.get(c, 0.0)
-        mode = rng.choice(["rand", "zero", "at", "below", "above", "sublot"])
+        mode = rng.choice(["rand", "zero", "at", "below", "above", "sublot", "tiny"])
         modes[c] = mode
         if mode == "zero":
             w = 0.0
@@ -130,6 +130,9 @@ def case(ctx, i, tier):
             sgn = rng.choice([-1, 1])
             if mode == "sublot":
                 imb = sgn * rng.uniform(0.01, 0.99)
+            elif mode == "tiny":
+                # an imbalance worth 0.5 - 3 units of currency (below a fixed commission of 5)
+                imb = sgn * rng.uniform(0.5, 3.0) / (q[c][1] * c.multiplier)
             else:
                 kf = {"at": 1.0, "below": 1 - 1e-9, "above": 1 + 1e-9}[mode]
                 px = q[c][1] if sgn > 0 else q[c][0]
